@@ -343,6 +343,9 @@ pub struct SyncParams {
     pub park: bool,
     pub notify: bool,
     pub atomics: bool,
+    /// relaxed single-writer probe locations (x0..x2): values observed through them expose lost
+    /// happens-before edges of the primitives
+    pub probes: bool,
     pub cells: bool,
     pub yields: bool,
     /// acquire locks only in increasing index order (no deadlock by lock inversion)
@@ -408,6 +411,11 @@ pub fn sync_prog(s: &mut Src, p: &SyncParams) -> Program {
     if p.yields {
         kinds.push(8);
     }
+    if p.probes {
+        kinds.extend([9, 9, 9]);
+    }
+    let mut probe_writer: [Option<usize>; 3] = [None; 3];
+    let mut probe_val = [0u8; 3];
     if kinds.is_empty() {
         kinds.push(6);
     }
@@ -431,7 +439,7 @@ pub fn sync_prog(s: &mut Src, p: &SyncParams) -> Program {
             continue;
         }
         let mut kind = kinds[s.pick(kinds.len())];
-        if parker[t] && !matches!(kind, 4 | 6 | 7 | 8) {
+        if parker[t] && !matches!(kind, 4 | 6 | 7 | 8 | 9) {
             kind = 4;
         }
         match kind {
@@ -586,6 +594,18 @@ pub fn sync_prog(s: &mut Src, p: &SyncParams) -> Program {
             7 => {
                 let c = 0u8;
                 th.ops.push(if s.chance(1, 2) { Op::CellRead { c } } else { Op::CellWrite { c } });
+                made += 1;
+            }
+            9 => {
+                let a = s.pick(3);
+                let can_write = probe_writer[a].map(|w| w == t).unwrap_or(true) && probe_val[a] < 3;
+                if can_write && s.chance(1, 2) {
+                    probe_writer[a] = Some(t);
+                    probe_val[a] += 1;
+                    th.ops.push(Op::Store { a: a as u8, v: probe_val[a], o: MO::Rlx });
+                } else {
+                    th.ops.push(Op::Load { a: a as u8, o: MO::Rlx });
+                }
                 made += 1;
             }
             _ => {
